@@ -215,7 +215,9 @@ func execPool(prop string) func(poolCase, core.Source) core.Result {
 		if p, payload := lib.Call(func() {
 			for i, v := range c.Vals {
 				objs[i] = model.Build(v)
-				copies[i] = model.Build(reversedInsertion(v))
+				// the copy is built independently: maps filled in the opposite order, collections through
+				// other constructors (from an array, from a sequence, as a copy)
+				copies[i] = model.BuildVia(reversedInsertion(v), i%4)
 				abs[i] = model.Abstract(objs[i])
 			}
 		}); p {
